@@ -40,3 +40,18 @@ Proof. intros L Ha. exact (C04_mask_iff_legal n (conv s) a L Ha). Qed.
 (* C03 on the translated step: never FIRST, MID with discount 1 or LAST with discount 0 (no truncation) -- any state, any action *)
 Lemma src_step_protocol rnd sparse n pen dist s a : step_ok 1 false (snd (step n (reward_model rnd sparse n pen dist) s a)) = true.
 Proof. destruct (step_src rnd sparse n pen dist s a) as [_ E]. rewrite E. apply C03_step_protocol. Qed.
+(* C05: a masked-out city ends the episode with the penalty and leaves the state untouched *)
+Lemma src_masked_out n pen dist rnd sparse s a : 0 <= n ->
+  M.Inv n (conv s) -> M.nvis (conv s) < n -> 0 <= a < n -> jget false (M.mask (conv s)) a = false ->
+  conv (fst (step n (reward_model rnd sparse n pen dist) s a)) = conv s
+  /\ snd (step n (reward_model rnd sparse n pen dist) s a) = termination 1 [- pen].
+Proof.
+  intros Hn I Hv Ha Hm. destruct (step_src rnd sparse n pen dist s a) as [E1 E2]. rewrite E1, E2.
+  rewrite (C05_masked_out n pen dist Hn rnd sparse (conv s) a I Hv Ha Hm). split; reflexivity.
+Qed.
+(* C12: the translated observation is the state's coordinates, position and trajectory plus the mask "legal city" *)
+Lemma src_observation n s : zlen (s_visited_mask s) = n ->
+  let o := state_to_observation s in
+  (o_coordinates o, o_position o, o_trajectory o, o_action_mask o)
+  = (s_coordinates s, s_position s, s_trajectory s, map (M.legal_b (conv s)) (zrange n)).
+Proof. intros L. cbv zeta. rewrite observe_src. exact (C12_observation n (conv s) L). Qed.
